@@ -23,6 +23,8 @@ OPT_ZMASK = 0x800000
 OPT_REX = 0x40000000
 # EncodingOptions (asmjit/core/emitter.h): per-case, passed to the driver as a trailing `eo=<hex>` token
 EO_OPTSIZE, EO_PREDICTED_JUMPS = 0x1, 0x10
+# CodeHolder base addresses of the absolute-operand dimension (None: no base address, the JIT default)
+ABS_BASES = [("none", None), ("zero", 0), ("low", 0x10000), ("high", 0x140001000), ("top", 0x00007FFE12340000)]
 SIDE_STREAM = 0x5EEDA11CE0C01B11   # the extended dimensions draw from rng.s ^ SIDE_STREAM: the main stream is untouched
 
 FIXED_REGS = {}
@@ -556,7 +558,10 @@ class Gen:
             out.append(self.new_case(form, mode, ops, name, opts, extra))
         if self.ext:
             for v in self.ext_variants(form, mode, base, side):
-                out.append(self.new_case(form, mode, v[1], v[0], v[2], v[3], v[4] if len(v) > 4 else 0))
+                c = self.new_case(form, mode, v[1], v[0], v[2], v[3], v[4] if len(v) > 4 else 0)
+                if len(v) > 5:
+                    c.update(v[5])
+                out.append(c)
         return out
 
 
@@ -601,6 +606,70 @@ class Gen:
             m["shift"] = rng.below(4) if icls != "gp16" else 0
         m["disp"] = rng.choice([0, 8, -8, 127, -128, 128, 0x1000, -0x1000])
         return m
+
+
+    def _absrel_target(self, side, cbase, pad, kind):
+        """a requested absolute address of class `kind` for code that starts at cbase (+pad), or None when the class does not
+        exist for this base"""
+        b = (cbase or 0) + pad
+        if kind == "near+":
+            t = b + 0x200000 + side.below(64)
+        elif kind == "near-":
+            t = b - 0x100000 + side.below(64)
+        elif kind == "edge+":      # around rip + 2^31 - 1 (rip = b + instruction length)
+            t = b + 0x7FFFFFFF + side.range(-2, 20)
+        elif kind == "edge-":      # around rip - 2^31
+            t = b - 0x80000000 + side.range(-4, 20)
+        elif kind == "low32":
+            t = side.choice([0x1000, 0x7FFFFFF0, 0x12345678])
+        elif kind == "u32":
+            t = side.choice([0x80000000, 0xFFFFFFF0, 0x9ABCDEF0])
+        else:                      # far: not reachable from the code, not a 32-bit value
+            t = b + (1 << 33) + side.below(4096)
+        return t if t >= 0 else None
+
+    def _absrel_variants(self, form, mode, side, out):
+        """(7) base-less, index-less (absolute) memory operands x address type {abs, rel, default} x CodeHolder base address
+        {none, 0, low, > 4 GiB} x requested address {32-bit, near the code, at the edge of the rel32 reach, out of reach}.
+        With a known base the assembler turns rel/default operands into [rip+disp32] itself: disp32 counts from the end of
+        the instruction, i.e. behind a trailing immediate / is4 / 3DNow! suffix byte."""
+        opers = form["operands"]
+        deep = self.deep
+        mems = [i for i, o in enumerate(opers) if o["mem"] and not o.get("vsibReg") and o["mem"] not in ("tmem", "mib") and
+                not (o.get("memSegment") in ("es", "ds") and not o["mem"].startswith("moff"))]
+        if not mems or form["name"] in ("lea", "bndldx", "bndstx", "bndmk", "bndcl", "bndcu", "bndcn"):
+            return
+        trail = any(o["imm"] for o in opers) or "/is4" in form["opcodeString"] or form["prefix"] == "3DNOW"
+        if mode == 64:
+            ripcells = [(a, bn, t) for a in ("rel", "default") for bn in ("zero", "low", "high", "top")
+                        for t in ("near+", "near-", "edge+", "edge-", "far") if not (bn in ("zero", "low") and t in ("near-", "edge-"))]
+            allcells = ripcells + [(a, bn, t) for a in ("abs", "rel", "default") for bn in ("none", "zero", "low", "high", "top") for t in ("low32", "u32")] + \
+                [("abs", bn, t) for bn in ("none", "high") for t in ("near+", "far")] + [(a, "none", "near+") for a in ("rel", "default")]
+            if deep:
+                cells = allcells
+            else:
+                cells = [side.choice(ripcells)]
+                if trail or side.chance(1, 2):
+                    cells.append(side.choice(allcells))
+        else:
+            allcells = [(a, bn, t) for a in ("abs", "default", "rel") for bn in ("none", "zero", "low") for t in ("low32", "u32", "far")]
+            cells = allcells if deep else ([side.choice(allcells)] if side.chance(1, 2) else [])
+        bases = dict(ABS_BASES)
+        for addr, bn, tk in cells:
+            ops = self.instantiate(form, mode, True, "b")
+            if not ops:
+                continue
+            pad = side.choice([0, 0, 1, 7, 100, 4099])
+            t = self._absrel_target(side, bases[bn], pad, tk)
+            if t is None:
+                continue
+            i = next((j for j in mems if ops[j][0] == "M"), None)
+            if i is None:
+                continue
+            seg = side.choice([5, 6]) if side.chance(1, 10) else 0
+            ops[i] = ("M", dict(ops[i][1], base=None, index=None, shift=0, disp=t, seg=seg, bcst=0, addr=addr))
+            ex = ("k", side.range(1, 7)) if form.get("kmask") and side.chance(1, 3) else None
+            out.append(("mem-absrel-%s-%s-%s" % (addr, bn, tk), ops, 0, ex, 0, {"cbase": bases[bn], "pad": pad, "trail": bool(trail)}))
 
     def ext_variants(self, form, mode, base, side):
         """Variants of the extended dimensions: (name, ops, opts, extra, eopts). They are appended after the budgeted
@@ -774,6 +843,10 @@ class Gen:
                                 m["disp"] = 127 * (o["bcstSize"] // 8)
                             ops[i] = ("M", m)
                             out.append(("bcst-disp8xN-" + st, ops, 0, None, 0))
+        # (7) absolute operands x address type x CodeHolder base address (its own side stream: earlier variants keep theirs)
+        self.rng = type(side)(side.s ^ 0xAB5E11ADD2E55ED1)
+        self._absrel_variants(form, mode, self.rng, out)
+        self.rng = side
         return out
 
 
@@ -799,4 +872,5 @@ def op_token(op):
 def case_line(c):
     ex = "-" if not c["extra"] else "%s:%d" % c["extra"]
     return "%d %s %s %x %s %d %s" % (c["id"], c["arch"], c["name"], c["opts"], ex, len(c["ops"]), " ".join(op_token(o) for o in c["ops"])) + \
-        (" eo=%x" % c["eopts"] if c.get("eopts") else "")
+        (" eo=%x" % c["eopts"] if c.get("eopts") else "") + \
+        (" base=%s pad=%d" % ("none" if c["cbase"] is None else "%x" % c["cbase"], c.get("pad", 0)) if "cbase" in c else "")
